@@ -49,6 +49,12 @@ def getWidthInfo(w:Wire):
     else:
         return ""
     
+def getBitSelect(obj:Logic, w:Wire, bit:int):
+    # bit select of the wire as seen from the parent of obj; a 1 bit wire is a scalar net and has no range
+    if (w.getWidth() == 1 and bit == 0):
+        return getParentWireName(obj, w)
+    return "{}[{}]".format(getParentWireName(obj, w), bit)
+
 def getInstanceName(ins:Logic):
     return "i_" + ins.name
 
@@ -285,7 +291,7 @@ def InlineBuf(obj:Logic):
     return "assign {} = {};\n".format(getParentWireName(obj, obj.r), getParentWireName(obj, obj.a))
 
 def InlineSignExtend(obj:Logic):
-    return "assign {} = {{ {{ {} {{ {}[{}] }} }}, {} }};\n".format(getParentWireName(obj, obj.r), obj.r.getWidth() - obj.a.getWidth(),  getParentWireName(obj, obj.a), obj.a.getWidth()-1, getParentWireName(obj, obj.a))
+    return "assign {} = {{ {{ {} {{ {} }} }}, {} }};\n".format(getParentWireName(obj, obj.r), obj.r.getWidth() - obj.a.getWidth(),  getBitSelect(obj, obj.a, obj.a.getWidth()-1), getParentWireName(obj, obj.a))
 
 def InlineZeroExtend(obj:Logic):
     return "assign {} = {};\n".format(getParentWireName(obj, obj.r), getParentWireName(obj, obj.a))
@@ -330,10 +336,12 @@ def InlineEqualConstant(obj:Logic):
     return "assign {} = ({} == {})? 1 : 0;\n".format(getParentWireName(obj, obj.r), getParentWireName(obj, obj.a), obj.v & ((1 << obj.a.getWidth()) - 1) )
 
 def InlineRange(obj:Logic):
+    if (obj.a.getWidth() == 1 and obj.high == 0 and obj.low == 0):
+        return "assign {} = {};\n".format(getParentWireName(obj, obj.r), getParentWireName(obj, obj.a))
     return "assign {} = {}[{}:{}];\n".format(getParentWireName(obj, obj.r), getParentWireName(obj, obj.a) , obj.high, obj.low)
 
 def InlineBit(obj:Logic):
-    return "assign {} = {}[{}];\n".format(getParentWireName(obj, obj.r), getParentWireName(obj, obj.a) , obj.bit)
+    return "assign {} = {};\n".format(getParentWireName(obj, obj.r), getBitSelect(obj, obj.a, obj.bit))
 
 def InlineBitsLSBF(obj:Logic):
     str = ""
